@@ -1,4 +1,5 @@
 """C19 - line readers split exactly at line boundaries."""
+import copy
 import io
 import json
 import os
@@ -6,7 +7,7 @@ import tempfile
 
 from hypothesis import strategies as st
 
-from vlib.core import Outcome, Sub, HarnessError, is_known
+from vlib.core import poison, POISON, Outcome, Sub, HarnessError, is_known
 
 from boltons import strutils, jsonutils
 
@@ -233,7 +234,10 @@ def run_b(case):
 # ---------------------------------------------------------------------------
 # (c) JSONLIterator
 
-CORRUPT = ['{"k": 1', 'bareword', '[1, 2', '{]', '"unterminated', '{"a":}', '\xe9{', '}']
+CORRUPT = ['{"k": 1', 'bareword', '[1, 2', '{]', '"unterminated', '{"a":}', '\xe9{', '}',
+           # undecodable because it is nested deeper than the decoder can follow (json.loads raises RecursionError, not ValueError)
+           '[' * 3000, '{"a":' * 3000]
+DEEP = {8, 9}
 _json_val = st.one_of(
     st.integers(-5, 1000),
     st.text(alphabet='ab \xe9\u20ac\U0001f600"\\', max_size=5),
@@ -283,7 +287,7 @@ def _build_c(case):
             objs.append(('blank',))
         elif k == 'corrupt':
             line = CORRUPT[v % len(CORRUPT)]
-            objs.append(('corrupt',))
+            objs.append(('corrupt', 'deep') if v % len(CORRUPT) in DEEP else ('corrupt',))
         else:
             raise HarnessError('bad record kind %r' % (k,))
         last = i == len(recs) - 1
@@ -291,6 +295,13 @@ def _build_c(case):
         chunks.append(piece)
         offset += len(piece.encode('utf-8'))
     return ''.join(chunks).encode('utf-8'), objs
+
+
+def unpoison(o):
+    if type(o) is list and o and o[-1] == POISON:
+        o.pop()
+    elif type(o) is dict:
+        o.pop(POISON, None)
 
 
 def _drain(it):
@@ -351,6 +362,24 @@ def run_c(case):
                     if got != exp:
                         return out.fail('c.objects-mismatch.' + ('reverse' if reverse else 'forward'),
                                         '%s: got %s expected %s' % (desc, _short(got), _short(exp)))
+                    # the decoded objects belong to the consumer: changing them must not change what reading the file again yields
+                    for o in got:
+                        poison(o)
+                    f = opn()
+                    try:
+                        again, exc2 = _drain(jsonutils.JSONLIterator(f, ignore_errors=ignore, reverse=reverse))
+                    finally:
+                        try:
+                            f.close()
+                        except Exception:       # noqa  (a text handle is detached by the reverse reader)
+                            pass
+                    fresh = copy.deepcopy(list(reversed(good)) if reverse else good)
+                    for o in fresh:
+                        unpoison(o)
+                    if exc2 is not None or again != fresh:
+                        return out.fail('c.objects-aliased', '%s: reading the same file a second time, after the consumer changed the objects of the first pass, gives %s, '
+                                        'expected %s' % (desc, _short(again) if exc2 is None else repr(exc2), _short(fresh)))
+                    good = fresh if not reverse else list(reversed(fresh))
                 else:
                     seq = list(reversed(objs)) if reverse else objs
                     exp = []
@@ -361,7 +390,8 @@ def run_c(case):
                             exp.append(o[1])
                     if exc is None:
                         return out.fail('c.corrupt-not-raised', '%s: no exception, got %s' % (desc, _short(got)))
-                    if not isinstance(exc, ValueError):
+                    deep_first = next((o for o in seq if o[0] == 'corrupt'), ('corrupt', None))[1:] == ('deep',)
+                    if not isinstance(exc, ValueError) and not (deep_first and isinstance(exc, RecursionError)):
                         return out.fail('c.corrupt-wrong-exception', '%s: raised %r' % (desc, exc))
                     if got != exp:
                         return out.fail('c.objects-before-corrupt-mismatch', '%s: got %s expected %s' % (
